@@ -749,3 +749,321 @@ Proof.
   rewrite te_ci, Hte, cl_ci, Hc5, Hce. reflexivity.
 Qed.
 End Body.
+
+
+(* ---------- one response, end to end ---------- *)
+Definition expects_b (q : rq) (status : Z) : bool := negb (q_head q) && body_allowed_status status.
+Definition wh (q : rq) (status : Z) (h : fields) (clen : Z) (hdone : bool) (p : bytes) : hdec :=
+  write_header sniff_text fixed_date true body_allowed_status q (false, false, false) status h clen false hdone p.
+
+Lemma wf_te h : wf_hdrs h = true -> get_all s_te h = [].
+Proof.
+  unfold wf_hdrs. intro H. apply andb_true_iff in H. destruct H as [H _]. apply andb_true_iff in H. destruct H as [_ H].
+  rewrite has_key_get_all in H. destruct (get_all s_te h); [reflexivity|discriminate].
+Qed.
+Lemma wf_keys h : wf_hdrs h = true -> forallb key_ok h = true.
+Proof. unfold wf_hdrs. intro H. apply andb_true_iff in H. destruct H as [H _]. apply andb_true_iff in H. tauto. Qed.
+Lemma d_keys q status h clen hdone p : forallb key_ok h = true ->
+  forallb (fun kv => is_token (fst kv)) (d_fields (wh q status h clen hdone p)) = true /\
+  forallb (fun kv => canon_ok (fst kv)) (d_fields (wh q status h clen hdone p)) = true.
+Proof.
+  intro H. rewrite forallb_forall in H. split; apply forallb_forall; intros kv Hin; apply d_fields_in in Hin;
+    specialize (H kv Hin); unfold key_ok in H; apply andb_true_iff in H; tauto.
+Qed.
+
+Theorem parses_as_one q ff status h pieces err tail out close dr :
+  wf_hdrs h = true -> (q_minor q = 0 \/ q_minor q = 1) -> 100 <= status <= 599 ->
+  blen (concat pieces) < 2 ^ 62 ->
+  (expects_b q status = true ->
+   err = false /\ forall v, get_all s_cl h = [v] -> parse_dec v = Some (blen (concat pieces))) ->
+  respond q (false, false, false) ff status h pieces err = (out, close, dr) ->
+  (close = true -> tail = []) ->
+  exists fs fr,
+    ref_parse (q_head q) (out ++ tail) =
+      Some (mkp (q_minor q) status fs fr (if expects_b q status then concat pieces else []) true tail) /\
+    (fr =? 0) = negb (expects_b q status) /\
+    exists clen hdone p, fs = fs_of (d_fields (wh q status h clen hdone p)) (d_extra (wh q status h clen hdone p)).
+Proof.
+  intros Hwf Hm Hst Hlen Hreg Hresp Hclose.
+  pose proof (wf_te h Hwf) as Hte. pose proof (wf_keys h Hwf) as Hkeys.
+  unfold respond, respond_gen in Hresp.
+  remember (match get_first s_cl h with [] => -1 | c :: l => match parse_int (c :: l) with Some v => if 0 <=? v then v else -1 | None => -1 end end) as clen0 eqn:Eclen0.
+  destruct (accept_writes (body_allowed_status status) clen0 0 pieces) as [[acc written] werr] eqn:Ea.
+  destruct (if ff then (acc, []) else bufio_writes [] acc) as [flushed pending] eqn:Eb.
+  set (ws := flushed ++ (if is_empty pending then [] else [pending])) in *.
+  remember (if ff then false else match flushed with [] => true | _ :: _ => false end) as hdone eqn:Ehdone.
+  remember (if ff then [] else match ws with [] => [] | x :: _ => x end) as p eqn:Ep.
+  fold (wh q status h clen0 hdone p) in Hresp. set (d := wh q status h clen0 hdone p) in *.
+  pose proof (f_equal (fun x => fst (fst x)) Hresp) as Hout. pose proof (f_equal (fun x => snd (fst x)) Hresp) as Hcl.
+  cbv beta in Hout, Hcl. cbn [fst snd] in Hout, Hcl. clear Hresp.
+  (* facts about the writes *)
+  assert (Hacc : blen (concat acc) <= blen (concat pieces)).
+  { pose proof (accept_sub (body_allowed_status status) pieces clen0 0) as Hs. rewrite Ea in Hs. exact Hs. }
+  assert (Hws : concat ws = concat acc /\ forallb (fun x => negb (is_empty x)) ws = true \/ ff = true /\ ws = acc).
+  { destruct ff.
+    - right. inversion Eb; subst flushed pending. unfold ws. cbn. rewrite app_nil_r. split; reflexivity.
+    - left. destruct (bufio_writes_spec _ _ _ _ Eb) as [B1 B2]. cbn [app] in B1. unfold ws. split.
+      + rewrite concat_app. destruct pending; cbn [is_empty concat app]; rewrite <- B1, ?app_nil_r; reflexivity.
+      + rewrite forallb_app, B2. destruct pending; reflexivity. }
+  assert (Hcw : concat ws = concat acc) by (destruct Hws as [[A _]|[_ A]]; [exact A|rewrite A; reflexivity]).
+  assert (Hp : blen p < 10 ^ 80).
+  { assert (blen p <= blen (concat ws)).
+    { rewrite Ep. destruct ff; [change (blen []) with 0; apply blen_bound|].
+      destruct ws as [|x ws']; [change (blen []) with 0; apply blen_bound|]. apply in_concat_le. left. reflexivity. }
+    rewrite Hcw in H. eapply Z.le_lt_trans; [exact H|]. eapply Z.le_lt_trans; [exact Hacc|].
+    eapply Z.lt_trans; [exact Hlen|]. vm_compute. reflexivity. }
+  destruct (d_keys q status h clen0 hdone p Hkeys) as [Htok Hcan].
+  pose proof (extras_good q status h clen0 hdone p Hp) as Hgood.
+  pose proof (extras_canon q status h clen0 hdone p) as Hecan.
+  pose proof (d_fields_nil q status h clen0 hdone p s_te Hte) as Hte5.
+  fold (wh q status h clen0 hdone p) in Hgood, Hecan, Hte5. fold d in Hgood, Hecan, Hte5, Htok, Hcan.
+  exists (fs_of (d_fields d) (d_extra d)).
+  rewrite <- Hout. change (d_head d) with (status_line (q_minor q) status ++ write_subset (d_fields d) ++ concat (map write_raw_field (d_extra d)) ++ crlf).
+  rewrite <- !app_assoc.
+  rewrite (parse_head (q_head q) (q_minor q) status (d_fields d) (d_extra d) _ Hm Hst Htok Hgood).
+  destruct (expects_b q status) eqn:Eex.
+  - (* a body is expected *)
+    unfold expects_b in Eex. apply andb_true_iff in Eex. destruct Eex as [Hh Hal]. apply negb_true_iff in Hh.
+    destruct (Hreg eq_refl) as [Herr Hclv]. rewrite ?Hh. unfold body_bytes. rewrite ?Hh.
+    rewrite Hal in Ea.
+    assert (Hfn : forall ps : list bytes, forallb (fun x => negb (is_empty x)) (filter (fun p0 => negb (is_empty p0)) ps) = true).
+    { intro ps. apply forallb_forall. intros x Hx. apply filter_In in Hx. tauto. }
+    assert (Hwf3 : match get_all s_cl h with [] => true | [v] => digits18 v | _ => false end = true).
+    { unfold wf_hdrs in Hwf. apply andb_true_iff in Hwf. tauto. }
+    assert (Hkeep : forall n, (n = -1 \/ 0 + blen (concat pieces) <= n) -> clen0 = n ->
+              acc = filter (fun p0 => negb (is_empty p0)) pieces /\ werr = false /\ concat ws = concat pieces).
+    { intros n Hn Hc. rewrite Hc, (accept_all pieces n 0 Hn) in Ea. injection Ea as A1 A2 A3. subst acc werr.
+      repeat split. rewrite Hcw. apply concat_filter_nonempty. }
+    assert (Hwsok : concat ws = concat pieces -> acc = filter (fun p0 => negb (is_empty p0)) pieces ->
+              forallb (fun x => negb (is_empty x) && (blen x <? 16 ^ 16)) ws = true).
+    { intros Hcp Hacc'. apply forallb_forall. intros x Hx. apply andb_true_iff. split.
+      - destruct Hws as [[_ B]|[_ B]].
+        + rewrite forallb_forall in B. apply B. exact Hx.
+        + rewrite B, Hacc' in Hx. apply filter_In in Hx. tauto.
+      - pose proof (in_concat_le x ws Hx) as Hle. rewrite Hcp in Hle. apply Z.ltb_lt.
+        eapply Z.le_lt_trans; [exact Hle|]. eapply Z.lt_trans; [exact Hlen|]. vm_compute. reflexivity. }
+    destruct (get_all s_cl h) as [|v [|v2 l]] eqn:Ecl; [| |discriminate].
+    + (* no declared length *)
+      assert (Hc0 : clen0 = -1) by (rewrite Eclen0; unfold get_first; rewrite Ecl; reflexivity).
+      destruct (Hkeep (-1) (or_introl eq_refl) Hc0) as [Hacc' [Hwerr Hcp]].
+      destruct hdone eqn:Ehd.
+      * (* Content-Length computed *)
+        destruct (sc_computed q status h clen0 true p Hh Hal Hte Ecl Hc0 eq_refl) as [S1 [S2 [S3 [S4 S5]]]].
+        fold (wh q status h clen0 true p) in S1, S2, S3, S4, S5. fold d in S1, S2, S3, S4, S5.
+        assert (Hpc : p = concat ws).
+        { destruct ff; [discriminate|]. destruct flushed; [|discriminate]. rewrite Ep. unfold ws. cbn [app].
+          destruct pending; cbn [is_empty concat app]; rewrite ?app_nil_r; reflexivity. }
+        exists 1. split; [|split; [reflexivity|exists clen0, true, p; reflexivity]].
+        rewrite S1, Hcp.
+        apply (body_len (q_minor q) status (d_fields d) (d_extra d) tail Hal Hcan Hecan Hte5 (dec_of_Z (blen p))); [exact S2| |].
+        -- rewrite S3, S4. cbn [map app]. f_equal. apply digits_trim; [clear; intros b Hb; unfold is_digit, is_space in *; lia|].
+           apply parse_dec_dec_of_Z. split; [apply blen_bound|exact Hp].
+        -- rewrite <- Hcp, <- Hpc. apply parse_dec_dec_of_Z. split; [apply blen_bound|exact Hp].
+      * destruct (at_least_11 q) eqn:E11.
+        -- (* chunked *)
+           destruct (sc_chunked q status h clen0 false p Hh Hal Hte Ecl Hc0 eq_refl E11) as [S1 [S2 [S3 [S4 S5]]]].
+           fold (wh q status h clen0 false p) in S1, S2, S3, S4, S5. fold d in S1, S2, S3, S4, S5.
+           exists 2. split; [|split; [reflexivity|exists clen0, false, p; reflexivity]].
+           rewrite S1, <- Hcp.
+           assert (Hm1 : q_minor q = 1) by (clear - E11 Hm; unfold at_least_11 in E11; lia).
+           apply (body_chunked (q_minor q) status (d_fields d) (d_extra d) tail Hal Hcan Hecan Hte5 ws Hm1 S2 S3 S4).
+           apply Hwsok; assumption.
+        -- (* until close *)
+           destruct (sc_until_close q status h clen0 false p Hh Hal Hte Ecl Hc0 eq_refl E11) as [S1 [S2 [S3 [S4 [S5 S6]]]]].
+           fold (wh q status h clen0 false p) in S1, S2, S3, S4, S5, S6. fold d in S1, S2, S3, S4, S5, S6.
+           exists 3. split; [|split; [reflexivity|exists clen0, false, p; reflexivity]].
+           assert (Ht : tail = []) by (apply Hclose; rewrite <- Hcl, S6; reflexivity).
+           rewrite S1, Ht, app_nil_r, <- Hcp.
+           apply (body_until_close (q_minor q) status (d_fields d) (d_extra d) Hal Hcan Hecan Hte5 (concat ws) S2 S3 S4).
+    + (* declared length, equal to the body length *)
+      unfold digits18 in Hwf3. apply andb_true_iff in Hwf3. destruct Hwf3 as [Hw1 Hw3].
+      apply andb_true_iff in Hw1. destruct Hw1 as [Hw1 Hw2].
+      assert (Hvne : v <> []) by (destruct v; [discriminate|discriminate]).
+      pose proof (Hclv v eq_refl) as Hpd.
+      assert (Hc0 : clen0 = blen (concat pieces)).
+      { rewrite Eclen0. unfold get_first. rewrite Ecl. destruct v as [|c l']; [congruence|].
+        rewrite (parse_int_digits (c :: l') _ Hw2 Hpd) by (eapply Z.lt_trans; [exact Hlen|]; vm_compute; reflexivity).
+        assert (Hge : (0 <=? blen (concat pieces)) = true) by (clear; pose proof (blen_bound (concat pieces)); lia).
+        rewrite Hge. reflexivity. }
+      destruct (Hkeep (blen (concat pieces)) (or_intror (Z.le_refl _)) Hc0) as [Hacc' [Hwerr Hcp]].
+      assert (Hne1 : (clen0 =? -1) = false) by (clear - Hc0; pose proof (blen_bound (concat pieces)); lia).
+      destruct (sc_declared q status h clen0 hdone p Hh Hal Hte v Ecl Hvne Hne1) as [S1 [S2 [S3 [S4 S5]]]].
+      fold (wh q status h clen0 hdone p) in S1, S2, S3, S4, S5. fold d in S1, S2, S3, S4, S5.
+      exists 1. split; [|split; [reflexivity|exists clen0, hdone, p; reflexivity]].
+      rewrite S1, Hcp.
+      apply (body_len (q_minor q) status (d_fields d) (d_extra d) tail Hal Hcan Hecan Hte5 v); [exact S2| |exact Hpd].
+      rewrite S3, S4. cbn [map app]. rewrite (sanitize_digits v Hw2). reflexivity.
+  - (* no body *)
+    exists 0. split; [|split; [reflexivity|exists clen0, hdone, p; reflexivity]].
+    assert (Hnb : q_head q || negb (body_allowed_status status) = true).
+    { unfold expects_b in Eex. clear - Eex. destruct (q_head q), (body_allowed_status status); cbn in *; congruence. }
+    assert (Hbb : body_bytes (q_head q) (d_chunking d) ws = []).
+    { unfold body_bytes. destruct (q_head q) eqn:Hh; [reflexivity|]. cbn [orb] in Hnb. apply negb_true_iff in Hnb.
+      unfold d, wh. rewrite (nobody_not_chunked q status h clen0 hdone p) by (rewrite Hh, Hnb; reflexivity).
+      rewrite Hnb in Ea. pose proof (accept_none pieces clen0 0) as Hn. rewrite Ea in Hn. cbn [fst] in Hn. subst acc.
+      assert (ws = []).
+      { destruct Hws as [[A B]|[_ A]]; [|exact A]. destruct ws as [|x ws']; [reflexivity|].
+        cbn [concat] in A. cbn [forallb] in B. destruct x; [discriminate|discriminate]. }
+      rewrite H. reflexivity. }
+    rewrite Hbb. cbn [app]. unfold ref_parse_body. rewrite Hnb. reflexivity.
+Qed.
+
+(* ---------- non-vacuity ---------- *)
+Definition ex_q : rq := {| q_minor := 1; q_head := false; q_conn := [] |}.
+Definition ex_body5 : bytes := [104; 101; 108; 108; 111].
+Definition ex_h1 : fields := [(s_cl, [53]); (s_ct, s_text_plain); (s_date, fixed_date)].
+Definition ex_h2 : fields := [(s_ct, s_text_plain)].
+Lemma parses_as_one_nonvacuous :
+  wf_hdrs ex_h1 = true /\ expects_b ex_q 200 = true /\ get_all s_cl ex_h1 = [[53]] /\
+  parse_dec [53] = Some (blen (concat [ex_body5])) /\
+  wf_hdrs ex_h2 = true /\ get_all s_cl ex_h2 = [] /\
+  snd (fst (respond ex_q (false, false, false) false 200 ex_h2 [repeat 97 600] false)) = false.
+Proof. repeat split; vm_compute; reflexivity. Qed.
+
+
+(* ---------- the end-to-end header fields are preserved ---------- *)
+Lemma list_bytes_eqb_refl l : list_bytes_eqb l l = true.
+Proof. induction l as [|x l IH]; [reflexivity|]. cbn. rewrite bytes_eqb_refl. exact IH. Qed.
+Lemma in_has_key kv h : In kv h -> has_key (fst kv) h = true.
+Proof.
+  intro H. unfold has_key. apply existsb_exists. exists kv. split; [exact H|]. unfold key_is. apply bytes_eqb_refl.
+Qed.
+Lemma has_key_del_other k X l : bytes_eqb X k = false -> has_key k (del_key X l) = has_key k l.
+Proof. intro H. rewrite !has_key_get_all, (get_all_del_other k X l H). reflexivity. Qed.
+
+Section Headers.
+Variables (q : rq) (status : Z) (h : fields) (clen : Z) (hdone : bool) (p : bytes).
+Let d := wh q status h clen hdone p.
+Hypothesis Hkeys : forallb key_ok h = true.
+Ltac wh_unfold := unfold d, wh, write_header, wh_frame; cbn [d_fields d_extra d_chunking d_close d_clen d_head fst snd].
+Ltac wh_split := cbn [is_empty negb andb orb fst snd]; repeat (match goal with |- context [if ?b then _ else _] => destruct b end; cbn [is_empty negb andb orb fst snd]).
+
+Let h1 := if status =? 304 then del_key s_te (del_key s_cl (del_key s_ct h)) else h.
+Lemma h1_date : has_key s_date h1 = has_key s_date h.
+Proof. unfold h1. destruct (status =? 304); [|reflexivity]. rewrite !has_key_del_other by reflexivity. reflexivity. Qed.
+
+(* every extra field is one of: Date (only if none supplied), Content-Type (only if none supplied and not 304),
+   or a framing field *)
+Lemma extra_kinds kv : In kv (d_extra d) ->
+  (fst kv = s_date /\ has_key s_date h = false) \/ (fst kv = s_ct /\ has_key s_ct h = false /\ (status =? 304) = false) \/
+  fst kv = s_cl \/ fst kv = s_conn \/ fst kv = s_te.
+Proof.
+  wh_unfold. fold h1. rewrite h1_date. unfold sniff_text.
+  intro H. repeat (apply in_app_or in H; destruct H as [H|H]).
+  - destruct (has_key s_date h) eqn:E; [destruct H|]. destruct H as [<-|[]]. left. split; reflexivity.
+  - destruct (_ && _); [|destruct H]. destruct H as [<-|[]]. right. right. left. reflexivity.
+  - destruct (status =? 304) eqn:E3; [destruct H|]. destruct (has_key s_ct h) eqn:Ec; [destruct H|].
+    cbn [is_empty] in H. destruct H as [<-|[]]. right. left. repeat split.
+  - match type of H with In _ (if ?b then _ else _) => destruct b end; [destruct H|]. destruct H as [<-|[]]. tauto.
+  - match type of H with In _ (if ?b then _ else _) => destruct b end; [destruct H|]. destruct H as [<-|[]]. tauto.
+Qed.
+Lemma extra_date_once : (length (get_all s_date (d_extra d)) <= 1)%nat /\ (length (get_all s_ct (d_extra d)) <= 1)%nat.
+Proof. wh_unfold. split; wh_split; rewrite ?get_all_app; cbn; lia. Qed.
+End Headers.
+
+Lemma eq_fold_false_neq k X : eq_fold k X = false -> bytes_eqb X k = false.
+Proof.
+  intro H. destruct (bytes_eqb X k) eqn:E; [|reflexivity]. apply bytes_eqb_eq in E. subst. rewrite eq_fold_refl in H. discriminate.
+Qed.
+Lemma get_all_none k (l : fields) : (forall x, In x l -> key_is k x = false) -> get_all k l = [].
+Proof.
+  induction l as [|x l IH]; intro H; [reflexivity|]. rewrite get_all_cons, (H x (or_introl eq_refl)). apply IH.
+  intros y Hy. apply H. right. exact Hy.
+Qed.
+
+Theorem headers_preserved q status h clen hdone p : forallb key_ok h = true ->
+  headers_ok status h (fs_of (d_fields (wh q status h clen hdone p)) (d_extra (wh q status h clen hdone p))) = true.
+Proof.
+  intro Hkeys.
+  destruct (d_keys q status h clen hdone p Hkeys) as [Htok Hcan].
+  pose proof (extras_canon q status h clen hdone p) as Hecan. fold (wh q status h clen hdone p) in Hecan.
+  pose proof (fs_canon _ _ Hcan Hecan) as Hfsc.
+  assert (Hek := extra_kinds q status h clen hdone p). assert (Hdo := extra_date_once q status h clen hdone p Hkeys).
+  unfold wh in *.
+  unfold headers_ok. repeat (apply andb_true_iff; split).
+  - apply forallb_forall. intros kv Hin. destruct (e2e_key status (fst kv)) eqn:Ee; [|reflexivity]. cbn [implb].
+    unfold e2e_key, framing_key in Ee. apply andb_true_iff in Ee. destruct Ee as [Ef Ect].
+    apply negb_true_iff in Ef. apply orb_false_iff in Ef. destruct Ef as [Ef Econn]. apply orb_false_iff in Ef. destruct Ef as [Ecl Ete].
+    apply negb_true_iff in Ect.
+    rewrite get_all_fs_of.
+    rewrite (d_fields_other q status h clen hdone p (fst kv));
+      try (apply eq_fold_false_neq; assumption).
+    2:{ destruct (status =? 304); [left; apply eq_fold_false_neq; cbn [andb] in Ect; exact Ect|right; reflexivity]. }
+    rewrite (get_all_none (fst kv) (d_extra _)); [rewrite app_nil_r; apply list_bytes_eqb_refl|].
+    intros x Hx. unfold key_is. destruct (bytes_eqb (fst kv) (fst x)) eqn:Ek; [|reflexivity]. apply bytes_eqb_eq in Ek.
+    pose proof (in_has_key kv h Hin) as Hhk.
+    destruct (Hek x Hx) as [[K1 K2]|[[K1 [K2 K3]]|[K1|[K1|K1]]]]; rewrite K1 in Ek; rewrite Ek in *.
+    + congruence.
+    + congruence.
+    + rewrite eq_fold_refl in Ecl. discriminate.
+    + rewrite eq_fold_refl in Econn. discriminate.
+    + rewrite eq_fold_refl in Ete. discriminate.
+  - apply forallb_forall. intros x Hx. unfold fs_of in Hx. apply in_map_iff in Hx. destruct Hx as [y [Hy Hin]]. subst x.
+    unfold parsed. cbn [fst]. apply in_app_or in Hin. destruct Hin as [Hin|Hin].
+    + apply in_map_iff in Hin. destruct Hin as [z [Hz Hin]]. subst y. unfold san. cbn [fst].
+      apply (proj1 (in_sort _ _)) in Hin. apply d_fields_in in Hin. rewrite (in_has_key z h Hin).
+      destruct (framing_key (fst z)); reflexivity.
+    + destruct (Hek y Hin) as [[K1 K2]|[[K1 [K2 K3]]|[K1|[K1|K1]]]]; rewrite K1.
+      * rewrite K2. reflexivity.
+      * rewrite K2, K3. reflexivity.
+      * reflexivity.
+      * reflexivity.
+      * reflexivity.
+  - destruct (has_key s_date h) eqn:E; [reflexivity|]. cbn [orb].
+    rewrite (get_all_ci_canon s_date _ (or_intror (or_intror (or_intror (or_intror (or_introl eq_refl))))) Hfsc). rewrite get_all_fs_of.
+    rewrite has_key_get_all in E.
+    assert (Hn : get_all s_date h = []) by (destruct (get_all s_date h); [reflexivity|discriminate]).
+    rewrite (d_fields_nil q status h clen hdone p s_date Hn). cbn [map app]. rewrite map_length.
+    destruct Hdo as [L1 _]. apply Z.leb_le. lia.
+  - destruct (has_key s_ct h) eqn:E; [reflexivity|]. cbn [orb].
+    rewrite (get_all_ci_canon s_ct _ (or_intror (or_intror (or_introl eq_refl))) Hfsc). rewrite get_all_fs_of.
+    rewrite has_key_get_all in E.
+    assert (Hn : get_all s_ct h = []) by (destruct (get_all s_ct h); [reflexivity|discriminate]).
+    rewrite (d_fields_nil q status h clen hdone p s_ct Hn). cbn [map app]. rewrite map_length.
+    destruct Hdo as [_ L1]. apply Z.leb_le. lia.
+Qed.
+
+
+(* ---------- the property on the model's own output, module responses ---------- *)
+Lemma probe_is_probe : is_probe_response probe_bytes = true.
+Proof. vm_compute. reflexivity. Qed.
+
+Theorem prop_of_model_module i c :
+  dec_C27 i = Some c -> i_src c <> 1 ->
+  (q_minor (i_q c) = 0 \/ q_minor (i_q c) = 1) -> 100 <= i_status c <= 599 ->
+  wf_hdrs (i_hdrs c) = true -> blen (supplied_body c) < 2 ^ 62 -> irregular c = false ->
+  prop_C27 i (run_C27 i) = true.
+Proof.
+  intros Hdec Hsrc Hm Hst Hwf Hlen Hirr.
+  unfold prop_C27, run_C27. rewrite Hdec. unfold exchange, response_of.
+  assert (Es : negb (i_src c =? 1) = true) by lia. rewrite Es.
+  destruct (respond (i_q c) (false, false, false) (negb (i_src c =? 0)) (i_status c) (i_hdrs c) (i_pieces c) (i_err c))
+    as [[out close] dr] eqn:Er.
+  set (tail := if close then [] else probe_bytes).
+  assert (Hreg : expects_b (i_q c) (i_status c) = true ->
+                 i_err c = false /\ forall v, get_all s_cl (i_hdrs c) = [v] -> parse_dec v = Some (blen (concat (i_pieces c)))).
+  { intro He. unfold irregular in Hirr. change (expects_body c) with (expects_b (i_q c) (i_status c)) in Hirr.
+    rewrite He, Es in Hirr. cbn [andb] in Hirr. apply orb_false_iff in Hirr. destruct Hirr as [H1 H2]. split; [exact H1|].
+    intros v Hv. unfold get_first in H2. rewrite Hv in H2.
+    unfold wf_hdrs in Hwf. apply andb_true_iff in Hwf. destruct Hwf as [_ Hw]. rewrite Hv in Hw.
+    unfold digits18 in Hw. apply andb_true_iff in Hw. destruct Hw as [Hw _]. apply andb_true_iff in Hw. destruct Hw as [Hne Hd].
+    destruct v as [|b v']; [discriminate|]. unfold parse_dec in *. rewrite Hd in *.
+    apply negb_false_iff in H2. apply Z.eqb_eq in H2. unfold supplied_body in H2. rewrite H2. reflexivity. }
+  destruct (parses_as_one (i_q c) (negb (i_src c =? 0)) (i_status c) (i_hdrs c) (i_pieces c) (i_err c) tail out close dr
+              Hwf Hm Hst Hlen Hreg Er) as [fs [fr [Hp [Hfr [cl [hd [p Hfs]]]]]]].
+  { unfold tail. intro Hc. rewrite Hc. reflexivity. }
+  fold tail. rewrite Hp. unfold mkp. cbn [p_status p_fields p_framing p_complete p_body p_rest].
+  rewrite Z.eqb_refl, Hfs, (headers_preserved _ _ _ _ _ _ (wf_keys _ Hwf)). cbn [andb].
+  change (expects_body c) with (expects_b (i_q c) (i_status c)). rewrite Hirr, Hfr.
+  unfold supplied_body.
+  destruct (expects_b (i_q c) (i_status c)); cbn [negb andb]; rewrite bytes_eqb_refl; cbn [andb];
+    unfold tail; destruct close; cbn [is_empty orb]; try reflexivity; apply probe_is_probe.
+Qed.
+
+Definition witness_200 : val :=
+  VL [VZ 1; VZ 0; VB []; VZ 2; VZ 200; VL [VL [VB s_cl; VB [53]]; VL [VB s_ct; VB s_text_plain]]; VZ 0; VZ 0;
+      VL [VB [104;101]; VB [108;108;111]]; VZ 0].
+Lemma prop_of_model_nonvacuous :
+  exists c, dec_C27 witness_200 = Some c /\ i_src c <> 1 /\ wf_hdrs (i_hdrs c) = true /\
+            expects_body c = true /\ irregular c = false /\ blen (supplied_body c) = 5.
+Proof. eexists. split; [vm_compute; reflexivity|]. repeat split; try (vm_compute; reflexivity). vm_compute. discriminate. Qed.
